@@ -65,6 +65,25 @@ CHECKS.update({
     ),
 })
 
+CHECKS.update({
+    "C04": dict(
+        engine="E1 SymArray (z3) + independent IR interpreter",
+        cat=TV,
+        text="For every compilation (captured from real calls of all operation families, adapters and factories; plus seeded random graphs over all IR node types built with einx's own constructors) z3 proves, for all tensor contents, that the cached function, the stand-alone exec() of the returned text (namespace = only the constants named in its header) and an independent node-by-node interpretation of the graph agree; code objects are compared and graph=True must return that text. A tick-stamped constant exposes double evaluation of shared nodes.",
+        note="Trusted: the IR interpreter in vlib/graphs.py (functional semantics for in-place nodes), SymArray models, z3. Random graphs <= 12 nodes (quick) / 25 (thorough). compiler/run.py is outside.",
+        tech="translation validation: symbolic execution of generated code vs IR interpretation + SMT equivalence",
+        ref="DESIGN.md §3 C04",
+    ),
+    "C05": dict(
+        engine="E1 SymArray (z3) + E3 CrossHair",
+        cat=TV,
+        text="Real optimiser patterns are applied pass by pass to graphs captured from real calls and to synthetic reshape/transpose/broadcast/concatenate/cast/wrapper chains (all permutation pairs up to rank 3, sampled at 4-5; shape triples up to 24 elements; shared intermediates); graph before/after are compiled by the real compiler and z3 proves equal outputs for all contents. CrossHair executes the real SkipTranspose with symbolic permutations and indices (exhaustive per rank). Every changing pass must decrease a path-count measure (bounded observation of termination).",
+        note="Trusted: SymArray models, z3, CrossHair. Termination is observed, not proved.",
+        tech="translation validation of optimiser passes (SMT) + CrossHair symbolic execution of the transpose-merge arithmetic",
+        ref="DESIGN.md §3 C05",
+    ),
+})
+
 NOT_APPLICABLE = {
     "C17": "quantifies over all axis lengths and the syntactic form of generated text; stages 2-4 cannot run with symbolic sizes under any installed engine (sympy, numpy int32 casts), see DESIGN.md §3 C17",
 }
